@@ -412,7 +412,8 @@ def run_fault(case):
             os.utime(lock, (t, t))
             before = {p: open(p, 'rb').read() for p in entries}
             # trigger: a miss followed by a save
-            t2 = now - 50
+            # the source file itself may be old (a vendored file, an unpacked archive): its age says nothing about the entry's use
+            t2 = now - 50 - fault.get('src_age', 0) * 86400
             os.utime(w.path, (t2, t2))
             os.utime(pk, (os.stat(pk).st_atime, t2 - 100))
             pcache.parser_cache.clear()
@@ -517,7 +518,7 @@ class C17(Prop):
             'replaced by a file; exception injection (ENOSPC, EACCES, EIO, ENOENT) at EVERY call index of open / file write / file read / pickle.dump / '
             'pickle.load / os.makedirs / os.path.getmtime / os.utime / os.remove / os.scandir / os.listdir reached under the private '
             'cache directory in the save, load and clean-up scenarios; a two-party interleaving (writer paused after k of n chunks, '
-            'reader in between); maintenance with the lock aged past a day and entries with access times on both sides of 30 days. '
+            'reader in between); maintenance with the lock aged past a day and entries with access times on both sides of 30 days, the source file itself recent or months old. '
             'Generated: random module texts x random fault subsets. Oracle: parse(path, cache=True) does not raise (warnings allowed) '
             'and returns the tree of the file content; a later fault-free parse leaves an entry that loads from disk after a memory '
             'drop; clean-up never deletes an entry accessed within the limit nor modifies a pickle; after every case the *process* is intact '
@@ -550,11 +551,11 @@ class C17(Prop):
             st.builds(lambda b: {'kind': 'garbage', 'hex': b.hex()}, st.binary(max_size=40)),
             st.builds(lambda o: {'kind': 'splice', 'offset': o}, st.integers(0, 4000)),
             st.builds(lambda n, a: {'kind': 'interleave', 'chunks': n, 'at': a}, st.integers(1, 12), st.integers(0, 11)),
-            st.builds(lambda ages, own, lock: {'kind': 'maintenance', 'ages': ages, 'own_age': own, 'lock_age': lock},
+            st.builds(lambda ages, own, lock, src: {'kind': 'maintenance', 'ages': ages, 'own_age': own, 'lock_age': lock, 'src_age': src},
                       st.lists(st.one_of(st.sampled_from([0.1, 1, 10, 29, 29.4, 31, 45, 400]),
                                          st.tuples(st.sampled_from([0.04, 1, 20, 29, 31, 60]), st.sampled_from([0.04, 10, 31, 45, 400])).map(list)),
                                min_size=1, max_size=5),
-                      st.sampled_from([0, 1, 20, 29]), st.sampled_from([0.5, 1.5, 3, 100])),
+                      st.sampled_from([0, 1, 20, 29]), st.sampled_from([0.5, 1.5, 3, 100]), st.sampled_from([0, 0, 3, 40, 400])),
             st.builds(lambda s, f, i, e: {'kind': 'inject', 'scenario': s, 'func': f, 'index': i, 'errno': e},
                       st.sampled_from(['save', 'load', 'cleanup']), st.sampled_from(PATCH_POINTS[:-1]), st.integers(0, 3),
                       st.sampled_from(sorted(ERRNOS))),
@@ -604,6 +605,7 @@ class C17(Prop):
             for own in (0, 20):
                 for lock in (0.5, 1.5, 100):
                     yield {'module': 1, 'fault': {'kind': 'maintenance', 'ages': ages, 'own_age': own, 'lock_age': lock}}
+                    yield {'module': 1, 'fault': {'kind': 'maintenance', 'ages': ages, 'own_age': own, 'lock_age': lock, 'src_age': 90}}
 
     def extra_evidence(self, tier):
         return {'injection_points_reached': getattr(self, '_call_counts', {})}
